@@ -701,7 +701,9 @@ func (c *compiler) compile(tok *token) []instruction {
 		c.Begin()
 		res = append(res, c.compile(tok.Tokens[forInit])...)
 		cond := c.optimize(c.compile(tok.Tokens[forCond]))
+		c.Begin() // the body is a block of its own: a variable it declares does not replace the loop variable
 		block := c.optimize(c.compile(tok.Tokens[forBlock]))
+		c.End()
 		post := c.optimize(c.compile(tok.Tokens[forPost]))
 		if len(cond) > 0 {
 			res = append(res, instruction{Code: codeJump, A: reg((len(block) + len(post)))})
